@@ -18,7 +18,7 @@ demopkg=./$(dirname $demo)
 cd $cf
 git apply $OLDPWD/seeded/$id/patch.diff || { echo "patch does not apply"; exit 1; }
 b=false; go build ./... 2>/tmp/seedc.err && b=true
-t=$(go test -vet=off -count=1 $pkgs 2>&1 | grep -c "^FAIL\|^--- FAIL")
+t=$(go test -vet=off -count=1 $pkgs 2>&1 | grep -c "^--- FAIL")
 cp $OLDPWD/seeded/$id/$(basename $demo).txt $demo
 with=$(go test -vet=off -count=1 -run 'Seed|seed' $demopkg 2>&1 | grep -c "^--- FAIL\|^FAIL\|panic:")
 git apply -R $OLDPWD/seeded/$id/patch.diff
